@@ -21,6 +21,8 @@ CLAIMED["C04"] = ("reference-model monitor with hook-observed algorithm path: op
                   "runtime monitoring: reference-model monitor (backward/forward error on the dense matrix) with hook events selecting the tolerance class")
 CLAIMED["C05"] = ("reference-model monitor with hook-observed path: logdet / inv_quad / inv_quad_logdet on PD operators under a settings matrix; deterministic path compared with dense values and documented shapes; on the stochastic path the returned log-determinant is compared with the dense Gauss-Lanczos quadrature log|P| + (n/m) sum u_i^T log(P^-1/2 A P^-1/2) u_i of the probe vectors recorded from the cg.begin hook event (exact identity, 1e-8), inv_quad with the CG tolerance bound",
                   "runtime monitoring: reference-model monitor; exact quadrature oracle over probe vectors recorded by the CG hook")
+CLAIMED["C06"] = ("reference-model monitor: cholesky / root_decomposition / root_inv_decomposition / eigh / eigvalsh / svd / diagonalization (every method string, torch.linalg spellings) on PSD / PD operators under size-threshold settings; reconstruction identities checked on the dense matrix (triangularity, R R^T = A or A^-1, orthonormality, U S V^T = A); Lanczos-based results (identified by lanczos.* hook events) against the orthogonal compression onto the space they span",
+                  "runtime monitoring: reconstruction-identity monitor on the dense denotation, hook events selecting the Lanczos oracle")
 PENDING = {}
 def main():
     hooks_commits = []
